@@ -164,4 +164,10 @@ def c20(rec):
         segs = t.split("/")
         if len(segs) >= 2 and segs[-2] != "" and hx(par + chh) != merkle_path(q):
             viol("helper-does-not-recombine", f"MerkleHelper({q!r}) recombines to {hx(par + chh)[:12]}…, the path's address is {merkle_path(q)[:12]}…")
+    # the message the client-side builder makes for a plain path must post to the path's own address
+    for q, (par, chh) in zip([p, p + "/" + ch, p + "/"], rec.get("client") or []):
+        t = q[:-1] if q.endswith("/") else q
+        segs = t.split("/")
+        if len(segs) >= 2 and segs[-2] != "" and hx(par + chh) != merkle_path(q):
+            viol("client-message-posts-elsewhere", f"CreateMsgPostFile({q!r}) posts to {hx(par + chh)[:12]}…, the plain path's address is {merkle_path(q)[:12]}…")
     return out
